@@ -526,6 +526,18 @@ func (x *Exec) Do(op Op) *Observed {
 
 // hostStyle rewrites a path-style request into virtual-host style for base.
 func hostStyle(base string) func(r *Req) {
+	// several bases (comma separated): consecutive requests go through them in turn
+	if bases := strings.Split(base, ","); len(bases) > 1 {
+		var styles []func(r *Req)
+		for _, b := range bases {
+			styles = append(styles, hostStyle(b))
+		}
+		n := 0
+		return func(r *Req) {
+			styles[n%len(styles)](r)
+			n++
+		}
+	}
 	return func(r *Req) {
 		p := strings.TrimPrefix(r.Path, "/")
 		if p == "" {
